@@ -61,7 +61,17 @@ def pkginfo(pkg):
     raise SystemExit("unknown package key " + pkg)
 
 
+# harness files that do not compile against the tree under test (e.g. they name an unexported field that a
+# refactoring renamed) are left out, so that the checks whose own harnesses still compile keep working
+EXCLUDED = {}
+EXCL_NOTES = []
+
+
 def harness_files(pkg):
+    return [f for f in all_harness_files(pkg) if os.path.basename(f) not in EXCLUDED.get(pkg, set())]
+
+
+def all_harness_files(pkg):
     d = os.path.join(VERIF, "harness", pkginfo(pkg)[0])
     if pkg == "hmac":
         # the vx API of package hmac is the stun one with the package clause replaced (regenerated when stale)
@@ -111,6 +121,24 @@ def run_engine(pkg, tags, harnesses, tier, seed, known_open, extra, outdir):
     cmd += extra
     t0 = time.time()
     r = subprocess.run(cmd, env=ENV, stdout=subprocess.PIPE, stderr=subprocess.STDOUT, text=True)
+    for _ in range(12):
+        if r.returncode == 0 or "load error" not in r.stdout:
+            break
+        found = set(re.findall(r"(zz_vx_\w+\.go):\d+:\d+:", r.stdout)) - {"zz_vx_api.go"}
+        bad = found - EXCLUDED.get(pkg, set())
+        if not found or (not bad and cmd[cmd.index("-overlay") + 1] == overlay_arg(pkg)):
+            break
+        EXCLUDED.setdefault(pkg, set()).update(bad)
+        if bad:
+            EXCL_NOTES.append("harness file(s) %s do not compile against this tree and were left out: %s" % (
+                ", ".join(sorted(bad)), " | ".join(l for l in r.stdout.splitlines() if "zz_vx_" in l)[:400]))
+        missing = [h for h in harnesses if h not in harness_names(pkg)]
+        if missing:
+            return [{"harness": h, "tags": tags, "unsupported": "the harness does not compile against this tree: " + r.stdout[-1500:], "inconclusive": True,
+                     "violations": [], "paths": 0, "queries": 0, "instrs": 0, "asserts": {}, "reach": [], "solver_s": 0,
+                     "wall_s": time.time() - t0, "functions_encoded": []} for h in harnesses]
+        cmd[cmd.index("-overlay") + 1] = overlay_arg(pkg)
+        r = subprocess.run(cmd, env=ENV, stdout=subprocess.PIPE, stderr=subprocess.STDOUT, text=True)
     if r.returncode != 0 or not os.path.exists(out):
         return [{"harness": h, "tags": tags, "unsupported": "engine failed: " + r.stdout[-2000:], "inconclusive": True,
                  "violations": [], "paths": 0, "queries": 0, "instrs": 0, "asserts": {}, "reach": [], "solver_s": 0,
@@ -365,8 +393,8 @@ def main():
         final_viol.append((r, v, dst))
 
     wall = time.time() - t0
-    if degraded:
-        extra_cov["reduced_on_this_tree"] = degraded
+    if degraded or EXCL_NOTES:
+        extra_cov["reduced_on_this_tree"] = degraded + sorted(set(EXCL_NOTES))
     write_evidence(pid, tier, seed, spec, results, final_viol, known_hits, inconclusive, selftests_ok, replays_done, wall, extra_cov)
     shutil.rmtree(outdir, ignore_errors=True)
 
@@ -379,7 +407,7 @@ def main():
     for (r, v, dst) in final_viol:
         log("VIOLATION property=%s replay=%s" % (pid, dst))
         log("  harness=%s tags=%s kind=%s label=%r at %s native=%s" % (r["harness"], r.get("tags") or "release", v["kind"], v["label"], v["pos"], v.get("native")))
-    for m in degraded:
+    for m in degraded + sorted(set(EXCL_NOTES)):
         log("NOTE:", m)
     if final_viol:
         sys.exit(1)
